@@ -119,8 +119,22 @@ impl C14Scenario {
                         }
                         Ok(false) => {
                             // nothing to resume: if no split is recorded either, the split never started: start it again
-                            let recorded = meta.get_split_state(OLD).await.ok().flatten().is_some();
-                            let old_state = meta.get_shard_metadata(OLD).await.ok().flatten().map(|m| m.state);
+                            // (the driver's own reads go through the faulted client too: an operator whose read fails
+                            // simply tries again, so a failed read is another round of the loop, not a verdict)
+                            let recorded = match meta.get_split_state(OLD).await {
+                                Ok(r) => r.is_some(),
+                                Err(e) => {
+                                    shared.lock().unwrap().attempts.push(format!("resume#{k}: nothing to resume; reading the split state failed: {e}"));
+                                    continue;
+                                }
+                            };
+                            let old_state = match meta.get_shard_metadata(OLD).await {
+                                Ok(m) => m.map(|m| m.state),
+                                Err(e) => {
+                                    shared.lock().unwrap().attempts.push(format!("resume#{k}: nothing to resume; reading the old shard failed: {e}"));
+                                    continue;
+                                }
+                            };
                             if !recorded && old_state == Some(ShardState::Active) {
                                 match splitter.execute_split_with_monitoring(&old_shard()).await {
                                     Ok(()) => {
